@@ -876,7 +876,7 @@ package memberlist
 //@                  && (forall x int :: 0 <= x && x < len(keys) ==> sliceEq(keys[x], old(k.keys)[ite(x < rangeindex + 1, x, x + 1)]))
 //@   ensures primary [C17]: old(len(k.keys)) > 0 && old(bytesEq(key, k.keys[0])) ==> result != nil && sliceEq(k.keys, old(k.keys))
 //@   ensures frozen [C17]: forall i int :: 0 <= i && i < old(len(k.keys)) ==> sliceEq(old(k.keys)[i], old(k.keys[i]))
-//@   ensures removed [C17]: result == nil ==> !inRing(k.keys, key)
+//@   ensures removed [C14,C17]: result == nil ==> !inRing(k.keys, key)
 
 //@ func NewKeyring(keys, primaryKey)
 //@   safety [C13,C17,C20]
